@@ -1568,3 +1568,65 @@ func ruleR9_8(w *World, r *Report) {
 	r.Check(ok, "R9.8", key, w.InstrPos(scanAt), "repeated variables are detected "+where+" before the scan",
 		"nothing between the entry of AppendClause and the scan of the new constraint detects a variable that occurs twice: a clause such as (x x x), or a constraint with x and not x, reaches the watch lists and conflict analysis, which assume distinct variables (observed: index out of range in learnClause, wrong answers)")
 }
+
+// ---------- R4.6: the cost function of the MaxSAT problem pairs every blocking literal with its weight ----------
+
+func ruleR4_6(w *World, r *Report) {
+	r.Rule("R4.6", "in maxsat.New the literal list and the weight list given to SetCostFunc are filled together (one append to each, in the same block, per blocking literal) and reach the call unchanged - in particular the weights are not replaced by nil on some path", 1)
+	fn := w.Func("maxsat", "New")
+	if fn == nil {
+		r.Unk("R4.6", "maxsat.New", "-", "function not found")
+		return
+	}
+	var call *ssa.Call
+	for _, ci := range callsIn(fn) {
+		if c, ok := ci.(*ssa.Call); ok && strings.HasSuffix(w.calleeName(&c.Call), ".SetCostFunc") {
+			call = c
+		}
+	}
+	key := "maxsat.New hands the collected weights to the cost function"
+	if call == nil || len(call.Call.Args) < 3 {
+		r.Unk("R4.6", key, w.Pos(fn.Pos()), "no call of SetCostFunc")
+		return
+	}
+	lits, weights := call.Call.Args[len(call.Call.Args)-2], call.Call.Args[len(call.Call.Args)-1]
+	// an accumulator: a header phi whose loop edge is append(phi, one element) and whose entry edge is a fresh slice
+	accum := func(v ssa.Value) (*ssa.Phi, *ssa.Call, string) {
+		phi, ok := v.(*ssa.Phi)
+		if !ok {
+			return nil, nil, "it is not the list built by the collecting loop (" + v.String() + ")"
+		}
+		var app *ssa.Call
+		for _, e := range phi.Edges {
+			switch x := e.(type) {
+			case *ssa.Call:
+				if b, isB := x.Call.Value.(*ssa.Builtin); isB && b.Name() == "append" && x.Call.Args[0] == ssa.Value(phi) && appendedElem(x) != nil {
+					app = x
+					continue
+				}
+				return nil, nil, "one of the values reaching the call is not the collected list"
+			case *ssa.MakeSlice:
+			case *ssa.Const:
+				return nil, nil, "on some path the list is replaced by a constant (nil): the weights are then taken to be 1"
+			default:
+				return nil, nil, "one of the values reaching the call is not the collected list"
+			}
+		}
+		if app == nil {
+			return nil, nil, "nothing is appended to it in a loop"
+		}
+		return phi, app, ""
+	}
+	_, la, why1 := accum(lits)
+	_, wa, why2 := accum(weights)
+	switch {
+	case why1 != "":
+		r.Bad("R4.6", key, w.InstrPos(call), "the literal list of the cost function: "+why1)
+	case why2 != "":
+		r.Bad("R4.6", key, w.InstrPos(call), "the weight list of the cost function: "+why2+": the solver then minimises the number of violated soft constraints instead of their weight")
+	case la.Block() != wa.Block():
+		r.Bad("R4.6", key, w.InstrPos(call), "a blocking literal and its weight are not appended together: the two lists can get out of step")
+	default:
+		r.OK("R4.6", key, w.InstrPos(call), "both lists are filled together and reach the call unchanged")
+	}
+}
